@@ -52,6 +52,7 @@ func iteS(c bool, a, b string) string {
 //@   loop 0 body[C09,C10] format-only-keeps-every-line: implies(formatOnly, bufContent(p.dest) == atHead(bufContent(p.dest))+line+"\n")
 //@   loop 0 body[C07,C05] no-entry-for-definition-and-meta-lines: implies(!formatOnly && (parsedLine.parsedType == definition || parsedLine.parsedType == comment || parsedLine.parsedType == empty || parsedLine.parsedType == flags || parsedLine.parsedType == prefix || parsedLine.parsedType == suffix), bufContent(p.dest) == atHead(bufContent(p.dest)))
 //@   loop 0 body[C05,C07] regular-line-emitted-in-place: implies(!formatOnly && parsedLine.parsedType == regular, bufContent(p.dest) == atHead(bufContent(p.dest))+line+"\n")
+//@   loop 0 body[C05,C06] every-include-line-is-resolved: implies(!formatOnly && parsedLine.parsedType == include, called(buildIncludeString)) && implies(!formatOnly && parsedLine.parsedType == includeExcept, called(buildIncludeExceptString))
 //@   loop 0 body[C05] include-text-emitted-in-place: implies(!formatOnly && parsedLine.parsedType == include && called(buildIncludeString) && len(resultOf(buildIncludeString, 0)) > 0, bufContent(p.dest) == atHead(bufContent(p.dest))+resultOf(buildIncludeString, 0))
 
 // ---- C06: suffix replacement pairs ------------------------------------------------------
@@ -221,6 +222,7 @@ func SpecWithRa(name string) string {
 //@   results out vars
 //@   loop 0 invariant filename == SpecWithRa(old(filename)) && implies(OpaqueIsAbs(filename), filePath == filename)
 //@   loop 0 body[C05] path-tried: argOf(Open, 0) == iteS(OpaqueIsAbs(SpecWithRa(old(filename))), SpecWithRa(old(filename)), OpaqueFJoin2(directory, SpecWithRa(old(filename))))
+//@   checks[C05,C06] parsed-afresh-on-every-call: called(Parse) && called(mergePrefixesSuffixes)
 //@   loop 0 body[C05] include-dir-first: implies(rangeIndex0 == 1, directory == rootParser.ctx.rootContext.includeFilesDirectory) && implies(rangeIndex0 == 2, directory == rootParser.ctx.rootContext.excludeFilesDirectory)
 
 // ---- C19: zero-annotation safety sweep over the rest of the parser package ----------------------
@@ -240,9 +242,10 @@ func SpecWithRa(name string) string {
 //@ directive[C19,C03] switch-groups Parser.parseLine NewParser patterns
 
 //@ contract splitArgs
-//@   tags C19
+//@   tags C19 C06
 //@   opt termination C19
 //@   results r
+//@   checks[C06] split-as-written: called(ReplaceAllString) && argOf(ReplaceAllString, 0) == input && argOf(ReplaceAllString, 1) == " " && called(Split) && argOf(Split, 0) == resultOf(ReplaceAllString, 0) && argOf(Split, 1) == " " && r == resultOf(Split, 0)
 
 //@ contract buildIncludeExceptString
 //@   tags C19 C06
